@@ -7,16 +7,21 @@ func init() {
 }
 
 // shapes without function-less frames (entry identity = function name)
-var vC04Shapes = []int{0, 1, 2, 3, 5}
+var vC04Shapes = []int{6, 5, 1, 0, 2, 3, 7}
+
+// order used by the trimming check (C05)
+var vC05Shapes = []int{6, 1, 5, 0, 2, 3, 7}
 
 // VerifC04TextItems: flat / cum / edge weights of an untrimmed report equal
 // their definition over the samples, for every sample value.
 func VerifC04TextItems() {
-	si := vC04Shapes[vChoice("shape", vBound("c04.shapes", len(vC04Shapes)))]
+	sidx := vChoice("shape", vBound("c04.shapes", len(vC04Shapes)))
+	si := vC04Shapes[sidx]
 	shape := vShapes[si]
 	vp := vBuildA(shape, 2, vNames, vFiles, true)
 	idx := vChoice("sample_index", 2)
-	mean := vChoice("mean", 2) == 1
+	// the mean option (division by a symbolic sum) is explored for the first c04.meanshapes shapes
+	mean := sidx < vBound("c04.meanshapes", len(vC04Shapes)) && vChoice("mean", 2) == 1
 	for _, s := range vp.p.Sample {
 		for _, v := range s.Value {
 			vAssume(v > -(1 << 40))
